@@ -55,7 +55,9 @@ pub fn gen_count(src: &mut Src) -> u64 {
 
 fn gen_labels(src: &mut Src, reserved: &str) -> Vec<(String, String)> {
     let n = src.below(6);
-    let pool: Vec<&str> = VALID_LABEL_NAMES.iter().copied().filter(|n| *n != reserved).collect();
+    // the two names the text format reserves, each where it is an ordinary label: `quantile` on everything but a summary, `le` on
+    // everything but a histogram
+    let pool: Vec<&str> = VALID_LABEL_NAMES.iter().copied().chain(["quantile", "le"]).filter(|n| *n != reserved).collect();
     let names = distinct(src, &pool, n);
     let mut out: Vec<(String, String)> = names.into_iter().map(|n| (n.to_string(), gen_text(src))).collect();
     if n == 5 && src.chance(60) {
@@ -149,7 +151,11 @@ pub fn gen_real(src: &mut Src) -> Vec<prometheus::proto::MetricFamily> {
             opts = opts.const_label("k_", gen_text(src));
         }
         let nl = 1 + src.below(2);
-        let lnames = distinct(src, VALID_LABEL_NAMES, nl);
+        let mut lnames = distinct(src, VALID_LABEL_NAMES, nl);
+        if src.chance(20) {
+            // an ordinary label on every kind of vector, histogram vectors included
+            lnames[0] = "quantile";
+        }
         let c: Box<dyn Collector> = match src.below(8) {
             0 => {
                 let c = Counter::with_opts(opts).unwrap();
